@@ -57,7 +57,7 @@ class VBoomOperation(FloatOperation):
 
     def _process_logic(self, data):
         CALL_LOG.append(("VBoomOperation", data.data))
-        raise ValueError("boom")
+        raise ValueError("boom", frozenset({1}), b"\xff")      # exception arguments need not be JSON values
 
 
 class VAbortOperation(FloatOperation):
